@@ -182,12 +182,16 @@ def gen_list(ds, max_deg: int, cls: str, tag: str, min_deg: int = 0, extra: int 
 
 
 # --------------------------------------------------------------------------- comparison
-def cmp_block(got, expected: pm.Poly, d: int, exact: bool, what: str, vprefix: str, scale_terms: float = 0.0):
+def cmp_block(got, expected: pm.Poly, d: int, exact: bool, what: str, vprefix: str, scale_terms: float = 0.0, clean_tol: float = 0.0):
     got = np.asarray(got)
     exp = poly_to_block(expected, d)
     if got.shape != exp.shape:
         raise Violation(f"{vprefix}-shape", f"{what}: result has shape {got.shape}, expected {exp.shape} for degree {d}")
     gotc = got.astype(np.complex128)
+    if clean_tol:
+        # the substitutions document a final clean: a coefficient of the RESULT with |value| <= clean_tol may come back as 0
+        cleaned = (np.abs(exp) <= clean_tol * (1 + 1e-9)) & (gotc == 0)
+        exp = np.where(cleaned, 0.0, exp)
     if exact:
         if not np.array_equal(gotc, exp):
             bad = np.flatnonzero(gotc != exp)
@@ -203,11 +207,11 @@ def cmp_block(got, expected: pm.Poly, d: int, exact: bool, what: str, vprefix: s
             raise Violation(vprefix, f"{what}: slot {i} (exponents {decode(i, d)}): got {gotc[i]}, expected {exp[i]}, |err|={err[i]:.3e}")
 
 
-def cmp_list(got, expected: pm.Poly, max_deg: int, exact: bool, what: str, vprefix: str, scale_terms: float = 0.0):
+def cmp_list(got, expected: pm.Poly, max_deg: int, exact: bool, what: str, vprefix: str, scale_terms: float = 0.0, clean_tol: float = 0.0):
     if len(got) != max_deg + 1:
         raise Violation(f"{vprefix}-shape", f"{what}: result has {len(got)} degree blocks, expected {max_deg + 1}")
     for d in range(max_deg + 1):
-        cmp_block(np.asarray(got[d]), pm.homogeneous(expected, d), d, exact, f"{what} [degree {d}]", vprefix, scale_terms)
+        cmp_block(np.asarray(got[d]), pm.homogeneous(expected, d), d, exact, f"{what} [degree {d}]", vprefix, scale_terms, clean_tol)
     if any(sum(k) > max_deg for k in expected):
         raise AssertionError("model result exceeds max_deg")  # harness bug guard
 
@@ -360,9 +364,24 @@ class Case:
             P[d][pos] = _val(self.cls, True, ds.choose(10, f"P.term[{j}].val"), j)
         self.P = P
         C = np.zeros((6, 6), dtype=np.complex128 if ds.flag("C.complex", 0.3) else np.float64)
-        shape = ds.pick(["identity", "zero_row", "zero_diagonal", "permutation", "conjugate_pair"], "C.shape", (0.5, 0.15, 0.15, 0.1, 0.1))
+        shape = ds.pick(["identity", "zero_row", "zero_diagonal", "permutation", "conjugate_pair", "rescale"], "C.shape", (0.42, 0.15, 0.15, 0.1, 0.1, 0.08))
         for i in range(6):
             C[i, i] = 1.0
+        self.rescaled = shape == "rescale"
+        if shape == "rescale":
+            # symplectic rescaling q_i -> s q_i, p_i -> p_i / s with a wide dynamic range: partial products of a term dip far below
+            # the size of its final coefficient. Powers of two keep everything exact. The polynomial is made of terms that
+            # contain both partners (final coefficient O(1)) next to the drawn ones.
+            i = ds.choose(3, "C.rescale.pair")
+            e = ds.pick([50, 60, 24, 12], "C.rescale.log2")   # 2^-50 times any coefficient of the classes is below the cleaning tolerance
+            C[i, i], C[i + 3, i + 3] = 2.0 ** -e, 2.0 ** e
+            if ds.flag("C.rescale.swap_partners", 0.3):
+                C[i, i], C[i + 3, i + 3] = C[i + 3, i + 3], C[i, i]
+            a = 1 + ds.choose(min(4, self.max_deg // 2), "C.rescale.power") if self.max_deg >= 2 else 0
+            if a:
+                k = [0] * 6
+                k[i], k[i + 3] = a, a
+                P[2 * a][encode(tuple(k), 2 * a)] += _val("small" if self.cls == "tiny" else self.cls, True, ds.choose(10, "C.rescale.val"), 1)
         if shape == "zero_row":
             # one to three variables map to 0 (or, with a shift, to pure constants): restriction to a slice, evaluation by substitution
             for z in range(1 + ds.choose(3, "C.zero_rows.count")):
@@ -376,7 +395,7 @@ class Case:
         elif shape == "conjugate_pair":
             C = C.astype(np.complex128)
             C[0, 0], C[0, 3], C[3, 0], C[3, 3] = 1.0, 1.0j, 1.0, -1.0j
-        for j in range(ds.choose(5, "C.extra")):
+        for j in range(0 if shape == "rescale" else ds.choose(5, "C.extra")):
             r, c = ds.choose(6, f"C[{j}].row"), ds.choose(6, f"C[{j}].col")
             v = SMALL[ds.choose(6, f"C[{j}].val")]
             C[r, c] = complex(v, SMALL[(v + j) % 4]) if np.iscomplexobj(C) else float(v)
@@ -595,7 +614,7 @@ class Case:
         elif op in ("substitute_linear", "substitute_affine"):
             C = [[complex(self.C[i, j]) for j in range(6)] for i in range(6)]
             sh = None if self.shifts is None else [complex(s) for s in self.shifts]
-            cmp_list(got, pm.substitute(P, C, sh, md), md, ex, what, vprefix, self.fscale())
+            cmp_list(got, pm.substitute(P, C, sh, md), md, ex, what, vprefix, self.fscale(), clean_tol=1e-14 if self.rescaled else 0.0)
         else:
             raise AssertionError(op)
 
